@@ -800,10 +800,11 @@ Proof.
   destruct V as [Gd V]. apply IH; auto. apply SInv_step; auto.
 Qed.
 
-(* always fires: in EVERY state the system can reach from boot, whatever the population and the history of set_timer /
-   suspend / resume / cancel / latch / expiry / manager passes, every armed timer (uncancelled, not held back by a
-   suspended source: those are not armed) is covered by a pending manager pass or by the kernel timer of its clock armed
-   at or before the timer's target *)
+(* a timer IN ITS HEAP is covered: in EVERY state the system can reach from boot, whatever the population and the history
+   of set_timer / suspend / resume / cancel / latch / expiry / manager passes, every member of a heap (armed: hence
+   uncancelled and with a target below INT64_MAX; armed does not imply "source not suspended") is covered by a pending
+   manager pass or by the kernel timer of its clock armed at or before the timer's target.  Nothing is said here about a
+   timer that is not armed: that it gets (re-)armed is the source side, TimerSrc_proofs.rearm_pending *)
 Theorem always_fires_reachable N n l t i :
   0 <= N /\ 2 * N + 2 <= CAPMAX -> svalid N n init_state l -> 0 <= i < 3 ->
   let st := fold_left (sstep n) l init_state in
